@@ -3,6 +3,7 @@ C15 — invalid configurations are rejected before anything is computed or writt
 `MT.validate` mirrors main.hpp:77-179 check by check (tie: `validate` correspondence on boundary
 shape vectors, all 8 variants).  Here: it accepts exactly the documented shapes.
 -/
+import MT.Generated.UtilsCode
 import MT.Main
 import MT.CliMain
 import MT.Generated.MainCode
@@ -229,5 +230,10 @@ theorem outputs_written_after_run :
       ["affinity_tw(nof_groups,nof_layers,affinity);",
        "utils::Reportresults=solver.run<affinity_init_t>(*u_list,*v_list,A,u,v,w,random_generator);",
        "A.extract_vertices_labels(labels);", "affinity=w.get_data();"] := by decide
+
+/-- `utils::get_num_vertices` as it stands in utils.hpp: the size of the set of all source and target labels —
+what the model's `numVertices` states -/
+theorem get_num_vertices_documented :
+    Gen.getNumVerticesText = "std::set<vertex_t>set_e_in(edges_start.begin(),edges_start.end());std::set<vertex_t>set_e_out(edges_end.begin(),edges_end.end());std::set<vertex_t>set_e;std::merge(set_e_in.begin(),set_e_in.end(),set_e_out.begin(),set_e_out.end(),std::inserter(set_e,set_e.begin()));returnset_e.size();" := rfl
 
 end MTProps.C15
